@@ -43,10 +43,11 @@ BACKENDS = [("c", "export_c.py", "ExportConfigC"), ("cpp", "export_cpp.py", "Exp
 
 
 class LadderHandler(Handler):
-    def __init__(self, kind, unsigned, precision):
+    def __init__(self, kind, unsigned, precision, on_super=None):
         super().__init__()
         self.kind, self.unsigned, self.precision = kind, unsigned, precision
         self.dtype = None
+        self.on_super = on_super          # callback(method name) -> dtype of the inherited mapping for this cell
 
     def test(self, node):
         s = norm(node)
@@ -84,7 +85,16 @@ class LadderHandler(Handler):
         elif isinstance(node, ast.AugAssign) and norm(node.target) == "dtype" and norm(node.value) == "str(param.precision)":
             self.dtype = (self.dtype or "") + str(self.precision)
         elif isinstance(node, ast.Return):
-            pass
+            v = node.value
+            if v is None or norm(v) == "dtype":
+                pass
+            elif isinstance(v, ast.Constant) and isinstance(v.value, str):
+                self.dtype = v.value
+            elif isinstance(v, ast.Call) and isinstance(v.func, ast.Attribute) and norm(v.func.value) == "super()" and self.on_super is not None \
+                    and [norm(a) for a in v.args] == ["param"]:
+                self.dtype = self.on_super(v.func.attr)
+            else:
+                raise Unrecognised(norm(node))
         elif isinstance(node, ast.Expr) and "self.include(" in norm(node):
             pass
         elif isinstance(node, ast.Assign) and norm(node.targets[0]) in ("value",):
@@ -109,8 +119,20 @@ def r1_type_ladders(ctx):
     n = 0
     for lang, f, cname in BACKENDS:
         fn = ctx.fn(CF + f, f"{cname}._parse_dtype")
+        mod = ctx.repo.module(CF + f)
+        chain = [(m, c) for m, c in ctx.repo.mro(mod, ctx.repo.cls(CF + f, cname))]
         for kind, uns, prec in cells:
-            h = LadderHandler(kind, uns, prec)
+
+            def inherited(mname, _k=kind, _u=uns, _p=prec, _depth=[0]):
+                # the same cell evaluated on the next definition of the method along the MRO
+                _depth[0] += 1
+                defs = [(m, c, methods(c)[mname]) for m, c in chain if mname in methods(c)]
+                if _depth[0] >= len(defs):
+                    raise Unrecognised(f"super().{mname} has no further definition")
+                hh = LadderHandler(_k, _u, _p, on_super=inherited)
+                run_block(defs[_depth[0]][2].body, hh)
+                return hh.dtype
+            h = LadderHandler(kind, uns, prec, on_super=inherited)
             cell = f"{lang}: {'u' if uns else ''}{kind}{prec or ''}"
             try:
                 run_block(fn.body, h)
@@ -208,15 +230,15 @@ def r3_quoting(ctx):
     for lang, f, q in sites:
         fn = ctx.fn(CF + f, q)
         quoted = []
-        for a in ast.walk(fn):
-            if isinstance(a, ast.Assign) and norm(a.targets[0]) == "value":
-                v = a.value
-                s = norm(v)
-                if isinstance(v, ast.JoinedStr) and s.startswith("f'\"{") and s.endswith("}\"'"):
-                    inner = v.values[1].value if len(v.values) == 3 and isinstance(v.values[1], ast.FormattedValue) else None
-                    quoted.append((a, inner))
-                elif isinstance(v, ast.BinOp) and s.startswith("'\"' + ") and s.endswith(" + '\"'"):
-                    quoted.append((a, v.left.right))
+        for v in ast.walk(fn):
+            if not isinstance(v, (ast.JoinedStr, ast.BinOp)):
+                continue
+            s = norm(v)
+            if isinstance(v, ast.JoinedStr) and s.startswith("f'\"{") and s.endswith("}\"'"):
+                inner = v.values[1].value if len(v.values) == 3 and isinstance(v.values[1], ast.FormattedValue) else None
+                quoted.append((v, inner))
+            elif isinstance(v, ast.BinOp) and s.startswith("'\"' + ") and s.endswith(" + '\"'") and isinstance(v.left, ast.BinOp):
+                quoted.append((v, v.left.right))
         if not quoted:
             ctx.unrecognised(CF + f, q, "string literal", "quoting site not found")
             continue
@@ -250,8 +272,8 @@ def r4_boolean_tables(ctx):
             ("export.py", "ExportConfig.parse"): ("true", "false"), ("export_c.py", "ExportConfigC.parse_define"): (1, 0)}
     for (f, q), (t, fl) in want.items():
         fn = ctx.fn(CF + f, q)
-        ie = [a.value for a in ast.walk(fn) if isinstance(a, ast.Assign) and isinstance(a.value, ast.IfExp) and isinstance(a.value.body, ast.Constant)
-              and isinstance(a.value.orelse, ast.Constant) and norm(a.value.test) in ("value", "param.value")]
+        ie = [a for a in ast.walk(fn) if isinstance(a, ast.IfExp) and isinstance(a.body, ast.Constant)
+              and isinstance(a.orelse, ast.Constant) and norm(a.test) in ("value", "param.value")]
         if len(ie) != 1:
             ctx.unrecognised(CF + f, q, "boolean literal", "`<true> if value else <false>` not found")
             continue
